@@ -148,15 +148,20 @@ def eqInner (s : Store) (maxSize : Nat) : Nat → EqState → Option EqState
     | [] => some st
     | cur :: rest =>
       let st := { st with queue := rest }
-      if st.visited[cur]?.getD true then eqInner s maxSize fuel st
-      else
+      match st.visited[cur]? with
+      | none => none      -- `visited[current]` out of range
+      | some true => eqInner s maxSize fuel st
+      | some false =>
         match st.parts[st.part]? with
         | none => none    -- `partitions[partition]` out of range
         | some p =>
           let p := p ++ [cur]
           let st := { st with visited := st.visited.set cur true, parts := st.parts.set st.part p, count := st.count + 1 }
           if p.length == maxSize then some st
-          else eqInner s maxSize fuel { st with queue := st.queue ++ ((s.succVec[cur]?.getD []).map (·.1)) }
+          else
+            match s.succVec[cur]? with
+            | none => none  -- `successors_vec[current]` out of range
+            | some row => eqInner s maxSize fuel { st with queue := st.queue ++ (row.map (·.1)) }
 
 /-- the `while visited_count < number_of_nodes` loop: every round visits at least one node -/
 def eqOuter (s : Store) (n maxSize : Nat) : Nat → EqState → Option EqState
